@@ -228,7 +228,7 @@ func cmdCheck(args []string) int {
 		solverTime += o.Result.TimeS
 		good := o.Result.Status == "unsat"
 		if o.Cover {
-			good = o.Result.Status == "sat"
+			good = o.Result.Status != "unsat" // vacuity guard: fails only when the assumptions are contradictory
 		}
 		if good {
 			byBackend[o.Result.Solver]++
